@@ -463,6 +463,9 @@ func shortSession(b *bh.Broker, name, id string) {
 }
 
 func checkAllClosed(r *h.Run, b *bh.Broker, label string) {
+	if late := b.Mon.SetupAfterClose; len(late) > 0 {
+		r.Violation("setup-after-close", fmt.Sprintf("%s: MemoryBackend.Close had returned, yet Setup called afterwards succeeded for %v (a connection admitted to a backend that was shut down)", label, late), map[string]interface{}{"scenario": label, "event_log_tail": b.Log.Dump(120)})
+	}
 	for _, ci := range b.Mon.Clients() {
 		snap := b.Mon.Snapshot(ci)
 		select {
@@ -640,7 +643,7 @@ func publishFlood(r *h.Run, idx int) {
 
 func TestCheck(t *testing.T) {
 	r := h.New("C14", "exploration")
-	r.Rule("hostile peers that always read send byte streams of 10 kinds {retained flood (150 retained QoS 1 messages, then a subscription to all of them, never acknowledged), resumed sessions finishing handshakes, valid packets in any order with small/repeating ids and hostile topics/filters (empty, wildcard-bearing, NUL-bearing, 64 KiB, deep), no CONNECT first, mutated/truncated frames, garbage, oversized packet, connect/disconnect storms on one id, hostile wills}, 6 at a time against one broker with backend-boundary perturbation, while two witnesses exchange numbered QoS 0/1/2 messages and PINGs after every group; every hostile connection must reach Closed() with Setup/Terminate paired; backend bookkeeping must show only the witnesses; separately MemoryBackend.Close fired at every backend hook-call index of a running session, every backend hook failing at its k-th call, a takeover hitting KillTimeout through a slow Terminate, and a client that stores 130-210 retained messages, subscribes to all of them and never acknowledges while the token timeout is 60 s (the witnesses' traffic must go on), and a publish flood of 400-800 QoS 1 messages onto a witness's topic under the stock configuration (every acknowledged witness message must still arrive). Process death is detected by the driver from the journal. Non-trivial = hostile connections that got past CONNECT (Setup succeeded); distinct by connection")
+	r.Rule("hostile peers that always read send byte streams of 10 kinds {retained flood (150 retained QoS 1 messages, then a subscription to all of them, never acknowledged), resumed sessions finishing handshakes, valid packets in any order with small/repeating ids and hostile topics/filters (empty, wildcard-bearing, NUL-bearing, 64 KiB, deep), no CONNECT first, mutated/truncated frames, garbage, oversized packet, connect/disconnect storms on one id, hostile wills}, 6 at a time against one broker with backend-boundary perturbation, while two witnesses exchange numbered QoS 0/1/2 messages and PINGs after every group; every hostile connection must reach Closed() with Setup/Terminate paired; backend bookkeeping must show only the witnesses; separately MemoryBackend.Close fired at every backend hook-call index of a running session and called synchronously between one client's Authenticate and Setup (no Setup that begins after Close returned may succeed), every backend hook failing at its k-th call, a takeover hitting KillTimeout through a slow Terminate, and a client that stores 130-210 retained messages, subscribes to all of them and never acknowledges while the token timeout is 60 s (the witnesses' traffic must go on), and a publish flood of 400-800 QoS 1 messages onto a witness's topic under the stock configuration (every acknowledged witness message must still arrive). Process death is detected by the driver from the journal. Non-trivial = hostile connections that got past CONNECT (Setup succeeded); distinct by connection")
 	r.Assume("hostile peers keep reading (a peer that stops reading is the recorded C13 mechanism) and never use a witness's client id")
 	nb := r.Pick(24, 500)
 	per := 36
@@ -677,6 +680,24 @@ func TestCheck(t *testing.T) {
 		r.Eval()
 		r.NonTrivial(fmt.Sprintf("close@%d/%d", n, i/maxCalls))
 	})
+	// ---- backend shutdown between one client's Authenticate and its Setup
+	for i := 0; i < r.Pick(6, 30); i++ {
+		k := 1 + i%3
+		label := fmt.Sprintf("MemoryBackend.Close called after Authenticate call #%d returned, before that client's Setup (three sessions)", k)
+		r.Journal("C14 %s", label)
+		b := bh.NewBroker()
+		b.Mon.CloseAfterAuth = k
+		var wg sync.WaitGroup
+		for j := 0; j < 2; j++ {
+			wg.Add(1)
+			go func(j int) { defer wg.Done(); shortSession(b, fmt.Sprintf("s%d", j), fmt.Sprintf("id%d", j)) }(j)
+		}
+		wg.Wait()
+		shortSession(b, "after", "after-id")
+		checkAllClosed(r, b, label)
+		r.Eval()
+		r.NonTrivial(fmt.Sprintf("close-after-auth@%d", k))
+	}
 	// ---- each backend hook failing at its k-th call
 	hooks := []string{"Authenticate", "Setup", "Restore", "Subscribe", "Unsubscribe", "Publish", "Dequeue", "Terminate"}
 	var hf []bh.HookFault
